@@ -295,6 +295,7 @@ def write_replay(prop, v):
            'expected': v.get('expected'), 'observed': v.get('observed'),
            'detail': v.get('detail'), 'fingerprint': fp,
            'standalone': v.get('standalone'),
+           'replay_times': v.get('replay_times', 1),
            'how': f'./check {prop} --replay {path}'}
     with open(path, 'w') as f:
         json.dump(doc, f, indent=1, sort_keys=True, default=repr)
@@ -302,8 +303,11 @@ def write_replay(prop, v):
     return path
 
 
-def _replay_once(module, v):
-    """Run module.replay(case-doc) in a brand new process of the right mode."""
+def _replay_once(module, v, times=1):
+    """Run module.replay(case-doc) in a brand new process of the right mode.
+    times=2: the case is run twice in that one process and the SECOND result
+    counts (a violation that needs the state an identical earlier run of the
+    same case left behind in the process)."""
     mode = getattr(module, 'REPLAY_MODE', getattr(module, 'MODE', 'nrt'))
     if callable(mode):
         mode = mode(v)
@@ -311,10 +315,11 @@ def _replay_once(module, v):
     ctx = mp.get_context('spawn')
     extra = getattr(module, 'EXTRA_INIT', None)
     with ctx.Pool(1, _worker_init, (mode, REPO, extra)) as p:
-        res = p.apply(_call, ((module.__name__, 'replay',
-                               {'kind': v['kind'], 'case': v['case']}),))
-    if isinstance(res, dict) and 'harness_error' in res:
-        raise HarnessError(res['harness_error'])
+        for _ in range(times):
+            res = p.apply(_call, ((module.__name__, 'replay',
+                                   {'kind': v['kind'], 'case': v['case']}),))
+            if isinstance(res, dict) and 'harness_error' in res:
+                raise HarnessError(res['harness_error'])
     return res
 
 
@@ -331,6 +336,21 @@ def confirm(module, v):
                          f'replay B: {canon(b)[:1500]}\n')
         return 'diverged'
     if not a.get('violates'):
+        # history dependent?  the same case twice in one fresh process
+        try:
+            a2 = _replay_once(module, v, times=2)
+            b2 = _replay_once(module, v, times=2)
+        except HarnessError:
+            a2 = b2 = {}
+        if a2.get('violates') and b2.get('violates') and \
+                (canon(a2) == canon(b2) or
+                 (same is not None and same(v, a2, b2))):
+            v['replay_times'] = 2
+            v['detail'] = (str(v.get('detail') or '') + ' [history dependent: '
+                           'does not show in a first run of this case in a '
+                           'fresh process, shows when the same case is run '
+                           'a second time in that process]')
+            return 'ok'
         sys.stderr.write(f'replay: {canon(a)[:1500]}\n')
         return 'gone'
     return 'ok'
